@@ -300,6 +300,25 @@ func cmdCheck(args []string) int {
 			}
 		}
 	}
+	// pinned texts of non-Go files (embedded SQL migrations the assumed storage semantics rest on)
+	{
+		ex := NewExec(P)
+		rep := &FuncReport{Func: "file pins", ex: ex}
+		for i, fp := range P.CS.FilePins {
+			if !hasProp(fp.Props, *prop) {
+				continue
+			}
+			data, err := os.ReadFile(filepath.Join(fp.Dir, fp.Path))
+			ok := err == nil && strings.Contains(strings.Join(strings.Fields(string(data)), " "), strings.Join(strings.Fields(fp.Text), " "))
+			rel := relPath(P, filepath.Join(fp.Dir, fp.Path))
+			rep.Obligations = append(rep.Obligations, &Obligation{Name: fmt.Sprintf("%s#file.text[%d]", rel, i), Kind: "sql.text",
+				Detail: "the file still contains the text the assumed semantics rest on: " + fp.Text, Goal: ex.p.Bool(ok), PC: ex.p.True(),
+				Func: rel, Props: fp.Props, Pos: fmt.Sprintf("%s:%d", relPath(P, fp.File), fp.Line)})
+		}
+		if len(rep.Obligations) > 0 {
+			reports = append(reports, rep)
+		}
+	}
 	for _, l := range P.CS.Lemmas {
 		if hasProp(l.Props, *prop) && (*only == "" || strings.Contains(l.Name, *only)) {
 			reports = append(reports, CheckLemma(P, l, l.PkgPath))
